@@ -16,7 +16,7 @@ def run(tier, deadline):
     # the library as configured here (prod, -O0) and, in the thorough tier, the quick-sized enumeration once more on the library built the way a
     # default ./configure builds it (dist: -O2, _FORTIFY_SOURCE=2, the repository's hardening flags)
     envs = {v: dict(os.environ, CAT_LIB=vbuild.build(v)) for v in (("prod",) if tier == "quick" else ("prod", "dist"))}
-    N, perms = (7, 0) if tier == "quick" else (10, 1)
+    N, perms = (8, 0) if tier == "quick" else (10, 1)
     jobs = [[str(N), str(perms), str(i), "16"] for i in range(16)]
     # large arrays around the Leonardo numbers L(k) (heap shapes whose order mask needs more than 32 bits start at L(33))
     Lk = [1, 1]
@@ -28,10 +28,15 @@ def run(tier, deadline):
             fams = [(2, 0), (3, Lk[k] - 1), (0, 0)] if tier == "quick" else \
                    [(f, 0) for f in (0, 1, 2, 5, 6, 7)] + [(f, p) for f in (3, 4) for p in sorted({0, n - 1, Lk[k] - 1, Lk[k - 1] - 1, Lk[k - 2] - 1}) if 0 <= p < n]
             big += [["big", str(n), str(f), str(p)] for f, p in fams]
+    # every Leonardo order between the structured families (nmemb <= 200) and the large arrays: nmemb = L(k)+d for k = 11..30, with the
+    # families that make the sift/trinkle descent move elements through every order below k (a wrong child offset at one order shows only here)
+    for k in range(11, 31):
+        for d in ((0, 1) if tier == "quick" else (-1, 0, 1, 2, 3)):
+            big += [["big", str(Lk[k] + d), str(f), "0"] for f in ((6, 1) if tier == "quick" else (1, 5, 6, 7))]
     big.sort(key=lambda j: -int(j[1]) * (8 if j[2] in ("6", "1", "7") else 1))     # slow ones first
     jobs = big + jobs
     def mkjobs(tier):
-        N, perms = (7, 0) if tier == "quick" else (10, 1)
+        N, perms = (8, 0) if tier == "quick" else (10, 1)
         jobs = [[str(N), str(perms), str(i), "16"] for i in range(16)]
         # large arrays around the Leonardo numbers L(k) (heap shapes whose order mask needs more than 32 bits start at L(33))
         Lk = [1, 1]
@@ -43,6 +48,9 @@ def run(tier, deadline):
                 fams = [(2, 0), (3, Lk[k] - 1), (0, 0)] if tier == "quick" else \
                        [(f, 0) for f in (0, 1, 2, 5, 6, 7)] + [(f, p) for f in (3, 4) for p in sorted({0, n - 1, Lk[k] - 1, Lk[k - 1] - 1, Lk[k - 2] - 1}) if 0 <= p < n]
                 big += [["big", str(n), str(f), str(p)] for f, p in fams]
+        for k in range(11, 31):
+            for d in ((0, 1) if tier == "quick" else (-1, 0, 1, 2, 3)):
+                big += [["big", str(Lk[k] + d), str(f), "0"] for f in ((6, 1) if tier == "quick" else (1, 5, 6, 7))]
         big.sort(key=lambda j: -int(j[1]) * (8 if j[2] in ("6", "1", "7") else 1))     # slow ones first
         jobs = big + jobs
         return jobs
@@ -85,7 +93,7 @@ def run(tier, deadline):
     def confirm(v):
         kv = dict(l.split("=", 1) for l in v.replay_text.strip().splitlines()); return replay(kv, quiet=True) == 1
     cov = {"evaluations": tot["arrays_sorted"] + tot["searches"], "distinct_nontrivial": tot["arrays_sorted"] + tot["searches"] - 14 * 5,
-           "rule": "client applications built from the public headers for gcc and clang x optimisation levels: qsort_s/bsearch_s with comparators configured through file-scope statics set before and reset after the call; if the library exports a symbol that is in neither the public headers nor the pinned tree's export list, a client with functions of its own by those names sorts 39 arrays; all arrays over keys {0,1,2} with nmemb 0..N (3^n each) x 14 element sizes {1,2,3,4,7,8,12,16,24,255,256,257,300,513} in exact-fit guarded memory; structured families (ascending, descending, all-equal, organ-pipe, two-value, scrambled) for nmemb 8..200; thorough: all 40320 permutations of 0..7; nested use: every key array with nmemb 3..min(N,7) sorted with a comparator that itself calls qsort_s on a 5-element array of another element size (6 size pairs; in every comparison, or only in the 2nd/3rd/4th), inner and outer results both judged; large arrays of 5-byte elements with nmemb = L(k)+d around the Leonardo numbers L(31..35) (quick: L(33), L(34); d in -1..3, quick 0..1) in guarded memory, families ascending, descending, all-equal, two-value, scrambled, organ-pipe, one minimum / one maximum at position 0, nmemb-1, L(k)-1, L(k-1)-1, L(k-2)-1 (permutation checked by a 32-bit index carried in every element; a call that has not returned after C16_TIME_LIMIT=600 s is a violation); bsearch_s on every sorted array x keys {0,1,2,3(absent)} with a stale matching element just outside the array; element sizes 4 and 257 repeated with the array's size passed as the known object size; 13 untrue (nmemb, size) pairs (above the documented limit, or with a product that wraps a size_t) x object size unknown/known x both functions: refused, reported exactly once, comparator never called; oracle: order, permutation of full elements, comparator pointers inside the array and element-aligned, context passed, no fault; non-trivial = nmemb >= 1",
+           "rule": "client applications built from the public headers for gcc and clang x optimisation levels: qsort_s/bsearch_s with comparators configured through file-scope statics set before and reset after the call; if the library exports a symbol that is in neither the public headers nor the pinned tree's export list, a client with functions of its own by those names sorts 39 arrays; all arrays over keys {0,1,2} with nmemb 0..N (3^n each) x 14 element sizes {1,2,3,4,7,8,12,16,24,255,256,257,300,513} in exact-fit guarded memory; structured families (ascending, descending, all-equal, organ-pipe, two-value, scrambled) for nmemb 8..200; thorough: all 40320 permutations of 0..7; nested use: every key array with nmemb 3..min(N,7) sorted with a comparator that itself calls qsort_s on a 5-element array of another element size (6 size pairs; in every comparison, or only in the 2nd/3rd/4th), inner and outer results both judged; arrays of 5-byte elements with nmemb = L(k)+d for every Leonardo order k = 11..30 (d in -1..3, quick 0..1; families scrambled and descending, thorough also two-value and organ-pipe) and large ones around the Leonardo numbers L(31..35) (quick: L(33), L(34); d in -1..3, quick 0..1) in guarded memory, families ascending, descending, all-equal, two-value, scrambled, organ-pipe, one minimum / one maximum at position 0, nmemb-1, L(k)-1, L(k-1)-1, L(k-2)-1 (permutation checked by a 32-bit index carried in every element; a call that has not returned after C16_TIME_LIMIT=600 s is a violation); bsearch_s on every sorted array x keys {0,1,2,3(absent)} with a stale matching element just outside the array; element sizes 4 and 257 repeated with the array's size passed as the known object size; 13 untrue (nmemb, size) pairs (above the documented limit, or with a product that wraps a size_t) x object size unknown/known x both functions: refused, reported exactly once, comparator never called; oracle: order, permutation of full elements, comparator pointers inside the array and element-aligned, context passed, no fault; non-trivial = nmemb >= 1",
            "samples": ["sort 4 3 020100", "sort 257 7 02010002010001", "search 16 5 0001010202 3", "sort 8 200 <descending>", "nested 4 5 0201000201 257 3", "big 18454930 3 18454928"], "nmemb_bound": N, "comparisons_observed": tot["comparisons"], "jobs_timed_out": len(timed_out), "library_builds": sorted(envs), "client_builds_run": client_runs, "exported_symbols_outside_headers_and_baseline": newsyms}
     return common.finish("C16", tier, t0, cov, violations, ["comparator is consistent (total order on the first byte)"], confirm=confirm, exhaustive=not timed_out)
 
